@@ -1,9 +1,1362 @@
+// Package c13: NeoVM integer opcodes (vm/neovm Executor.ExecuteOp, vm/neovm/types IntValue,
+// github.com/JohnCGriffin/overflow).
+//
+// Implementation side of the correspondence: every integer opcode is run through the real
+// Executor on stacks built from boundary-biased operands in every storage form (int64 field,
+// big.Int, byte array, bool), the new top of the stack / the fault is recorded and re-computed by
+// the Coq model (Corr/C13.v).  An exhaustive sweep of the boundary set squared is done per
+// two-operand opcode; the IntValue methods are swept with explicitly chosen representations (also a
+// big-stored value that fits an int64) and the four overflow functions on the int64 boundary set.
+//
+// Oracle (independent of the model, math/big as reference): exact result when operands and result
+// are within the size bound, fault otherwise, same outcome for every storage form of equal integers.
 package c13
 
-import "verif/harness/hx"
+import (
+	"encoding/json"
+	"fmt"
+	"math/big"
+	"strings"
+
+	"github.com/JohnCGriffin/overflow"
+	"github.com/ontio/ontology/common"
+	"github.com/ontio/ontology/vm/neovm"
+	"github.com/ontio/ontology/vm/neovm/constants"
+	vmerrors "github.com/ontio/ontology/vm/neovm/errors"
+	"github.com/ontio/ontology/vm/neovm/types"
+
+	"verif/harness/hx"
+)
 
 func init() { hx.Register("C13", Run) }
 
+// ---------- numbers ----------
+
+var biCache = map[string]*big.Int{}
+
+// bi parses a decimal integer (memoised; the results are never modified).
+func bi(s string) *big.Int {
+	if v, ok := biCache[s]; ok {
+		return v
+	}
+	v, ok := new(big.Int).SetString(s, 10)
+	if !ok {
+		panic("bad integer " + s)
+	}
+	biCache[s] = v
+	return v
+}
+func pow2(k uint) *big.Int { return new(big.Int).Lsh(big.NewInt(1), k) }
+func add(a *big.Int, d int64) *big.Int { return new(big.Int).Add(a, big.NewInt(d)) }
+func neg(a *big.Int) *big.Int         { return new(big.Int).Neg(a) }
+
+// inBound is the reference form of the VM's size rule: the magnitude fits MAX_INT_SIZE bytes.
+func inBound(v *big.Int) bool { return v.BitLen() <= 8*constants.MAX_INT_SIZE }
+
+// zs prints an integer as a Coq Z term. Magnitudes of 60 bits or more are written as 60-bit limbs of
+// primitive integers (zp/zn of Corr/C13.v): decimal Z literals of that size are very slow to read.
+func zs(v *big.Int) string {
+	if v.BitLen() < 60 {
+		if v.Sign() < 0 {
+			return "(" + v.String() + ")"
+		}
+		return v.String()
+	}
+	m := new(big.Int).Abs(v)
+	mask := add(pow2(60), -1)
+	var limbs []string
+	for m.Sign() > 0 {
+		limbs = append(limbs, new(big.Int).And(m, mask).String())
+		m.Rsh(m, 60)
+	}
+	f := "zp"
+	if v.Sign() < 0 {
+		f = "zn"
+	}
+	return "(" + f + " [" + strings.Join(limbs, ";") + "]%uint63)"
+}
+
+// boundarySet: 0, +-1, +-2, shift counts, the int64 boundary, the multiplication boundary, the
+// 32-byte bound in both senses (2^255: 32 magnitude bytes / 33 NeoBytes; 2^256-1: last admissible
+// magnitude; 2^256, 2^256+1: 33 magnitude bytes).
+func boundarySet() []*big.Int {
+	var out []*big.Int
+	for _, s := range []int64{0, 1, -1, 2, -2, 3, 7, 8, 63, 64, 255, 256, 257} {
+		out = append(out, big.NewInt(s))
+	}
+	pm := func(v *big.Int) { out = append(out, v, neg(v)) }
+	pm(pow2(31))
+	out = append(out, pow2(32))
+	pm(big.NewInt(3037000500))
+	pm(pow2(62))
+	pm(add(pow2(63), -1))
+	pm(pow2(63))
+	pm(add(pow2(63), 1))
+	pm(add(pow2(64), -1))
+	pm(pow2(64))
+	pm(pow2(127))
+	pm(pow2(128))
+	pm(add(pow2(255), -1))
+	pm(pow2(255))
+	pm(add(pow2(255), 1))
+	pm(add(pow2(256), -1))
+	pm(pow2(256))
+	pm(add(pow2(256), 1))
+	return out
+}
+
+// ---------- stack items ----------
+
+// item is a replayable stack item: the integer and the storage form.
+// rep: "int" (integerType), "bigint" (bigintType, not normalised), "bytes" (NeoBytes byte array,
+// Pad extra sign-extension bytes), "bool", "other" (an array).
+type item struct {
+	Z   string `json:"z"`
+	Rep string `json:"rep"`
+	Pad int    `json:"pad,omitempty"`
+}
+
+func (it item) val() *big.Int { return bi(it.Z) }
+
+func neoBytes(v *big.Int, pad int) []byte {
+	bs := common.BigIntToNeoBytes(v)
+	ext := byte(0)
+	if v.Sign() < 0 {
+		ext = 0xff
+	}
+	for i := 0; i < pad; i++ {
+		bs = append(bs, ext)
+	}
+	return bs
+}
+
+// build returns the VM value and the Coq term of the model item.
+func (it item) build(c *hx.Ctx) (types.VmValue, string) {
+	v := it.val()
+	switch it.Rep {
+	case "int":
+		if !v.IsInt64() {
+			panic("int item out of range")
+		}
+		return types.VmValueFromInt64(v.Int64()), "IInt " + zs(v)
+	case "bigint":
+		return types.VmValueFromIntValue(types.VerifIntValRaw(true, 0, v)), "IBigInt " + zs(v)
+	case "bytes":
+		bs := neoBytes(v, it.Pad)
+		back := common.BigIntFromNeoBytes(bs)
+		if back.Cmp(v) != 0 {
+			c.Fail("neobytes:roundtrip", "BigIntFromNeoBytes(BigIntToNeoBytes(v)) differs from v (C21 territory, assumed by the C13 model)", it, back.String(), v.String())
+		}
+		vv, err := types.VmValueFromBytes(bs)
+		if err != nil {
+			panic(err)
+		}
+		return vv, "IBytes " + zs(back)
+	case "bool":
+		return types.VmValueFromBool(v.Sign() != 0), "IBool " + hx.CoqBool(v.Sign() != 0)
+	case "other":
+		return types.VmValueFromArrayVal(types.NewArrayValue()), "IOther"
+	}
+	panic("bad rep " + it.Rep)
+}
+
+// reps lists the storage forms available for an integer.
+func reps(v *big.Int) []string {
+	r := []string{"bigint", "bytes"}
+	if v.IsInt64() {
+		r = append([]string{"int"}, r...)
+	}
+	return r
+}
+
+// natural is the form the sweep records for the model: int64 field when possible, otherwise
+// alternating byte array / big.Int.
+func natural(v *big.Int, i int) item {
+	if v.IsInt64() {
+		return item{Z: v.String(), Rep: "int"}
+	}
+	if i%2 == 0 {
+		return item{Z: v.String(), Rep: "bytes"}
+	}
+	return item{Z: v.String(), Rep: "bigint"}
+}
+
+// ---------- opcodes ----------
+
+type opInfo struct {
+	Name  string
+	Code  neovm.OpCode
+	Arity int
+	Kind  string // un | bin | cmp | within | nz
+}
+
+var ops = []opInfo{
+	{"INVERT", neovm.INVERT, 1, "un"}, {"AND", neovm.AND, 2, "bin"}, {"OR", neovm.OR, 2, "bin"}, {"XOR", neovm.XOR, 2, "bin"},
+	{"INC", neovm.INC, 1, "un"}, {"DEC", neovm.DEC, 1, "un"}, {"SIGN", neovm.SIGN, 1, "un"}, {"NEGATE", neovm.NEGATE, 1, "un"},
+	{"ABS", neovm.ABS, 1, "un"}, {"NZ", neovm.NZ, 1, "nz"},
+	{"ADD", neovm.ADD, 2, "bin"}, {"SUB", neovm.SUB, 2, "bin"}, {"MUL", neovm.MUL, 2, "bin"}, {"DIV", neovm.DIV, 2, "bin"},
+	{"MOD", neovm.MOD, 2, "bin"}, {"MAX", neovm.MAX, 2, "bin"}, {"MIN", neovm.MIN, 2, "bin"},
+	{"SHL", neovm.SHL, 2, "bin"}, {"SHR", neovm.SHR, 2, "bin"},
+	{"NUMEQUAL", neovm.NUMEQUAL, 2, "cmp"}, {"NUMNOTEQUAL", neovm.NUMNOTEQUAL, 2, "cmp"},
+	{"LT", neovm.LT, 2, "cmp"}, {"GT", neovm.GT, 2, "cmp"}, {"LTE", neovm.LTE, 2, "cmp"}, {"GTE", neovm.GTE, 2, "cmp"},
+	{"WITHIN", neovm.WITHIN, 3, "within"},
+}
+
+func opByName(n string) opInfo {
+	for _, o := range ops {
+		if o.Name == n {
+			return o
+		}
+	}
+	panic("unknown opcode " + n)
+}
+
+// ---------- running the implementation ----------
+
+// outcome of one ExecuteOp (or one script run).
+type outcome struct {
+	Fault string   // Coq constructor of the fault, "" when none
+	Msg   string   // original error text
+	Kind  string   // int | bigint | bool | bytes | other
+	Num   *big.Int // stored number for int/bigint/bool
+	Depth int
+	Panic string
+}
+
+func (o outcome) String() string {
+	if o.Panic != "" {
+		return "panic: " + o.Panic
+	}
+	if o.Fault != "" {
+		return "fault " + o.Fault + " (" + o.Msg + ")"
+	}
+	return fmt.Sprintf("%s %v depth %d", o.Kind, o.Num, o.Depth)
+}
+
+func (o outcome) sameResult(p outcome) bool {
+	if (o.Fault != "") != (p.Fault != "") || o.Panic != p.Panic {
+		return false
+	}
+	if o.Fault != "" {
+		return true
+	}
+	return o.Kind == p.Kind && o.Num != nil && p.Num != nil && o.Num.Cmp(p.Num) == 0
+}
+
+func faultName(err error) string {
+	switch err {
+	case vmerrors.ERR_OVER_MAX_BIGINTEGER_SIZE:
+		return "ErrOverMaxBigIntegerSize"
+	case vmerrors.ERR_SHIFT_BY_NEG:
+		return "ErrShiftByNeg"
+	case vmerrors.ERR_DIV_MOD_BY_ZERO:
+		return "ErrDivModByZero"
+	case vmerrors.ERR_BAD_TYPE:
+		return "ErrBadType"
+	case vmerrors.ERR_INDEX_OUT_OF_BOUND:
+		return "ErrIndexOutOfBound"
+	case vmerrors.ERR_OVER_STACK_LEN:
+		return "ErrOverStackLen"
+	}
+	return "ErrUnexpected"
+}
+
+var shared *neovm.Executor
+
+// sharedExecutor returns an Executor with an empty evaluation stack (one real Executor is reused:
+// allocating two 2048-limit stacks per evaluation dominates the run time otherwise).
+func sharedExecutor() *neovm.Executor {
+	if shared == nil {
+		shared = neovm.NewExecutor([]byte{0}, neovm.VmFeatureFlag{})
+	}
+	for shared.EvalStack.Count() > 0 {
+		if _, err := shared.EvalStack.Pop(); err != nil {
+			panic(err)
+		}
+	}
+	return shared
+}
+
+// execOp pushes the items (given top first) and executes one opcode through Executor.ExecuteOp.
+func execOp(c *hx.Ctx, op opInfo, topFirst []types.VmValue) outcome {
+	c.Eval()
+	var out outcome
+	p, msg := hx.Recover(func() {
+		e := sharedExecutor()
+		for i := len(topFirst) - 1; i >= 0; i-- {
+			if err := e.EvalStack.Push(topFirst[i]); err != nil {
+				panic(err)
+			}
+		}
+		state, err := e.ExecuteOp(op.Code, e.Context)
+		if err != nil {
+			out.Fault, out.Msg = faultName(err), err.Error()
+			if state != neovm.FAULT {
+				out.Msg += " (state not FAULT)"
+				out.Fault = "ErrUnexpected"
+			}
+			return
+		}
+		out.Depth = e.EvalStack.Count()
+		top, err := e.EvalStack.Peek(0)
+		if err != nil {
+			out.Kind = "empty"
+			return
+		}
+		out.Kind, out.Num = top.VerifKind()
+	})
+	if p {
+		out.Panic = msg
+		shared = nil
+	}
+	return out
+}
+
+// execScript runs PUSH... <op> through Executor.Execute (operands as the script would push them).
+func execScript(c *hx.Ctx, op opInfo, code []byte) outcome {
+	c.Eval()
+	var out outcome
+	p, msg := hx.Recover(func() {
+		e := neovm.NewExecutor(code, neovm.VmFeatureFlag{})
+		err := e.Execute()
+		if err != nil {
+			out.Fault, out.Msg = faultName(err), err.Error()
+			return
+		}
+		out.Depth = e.EvalStack.Count()
+		top, err := e.EvalStack.Peek(0)
+		if err != nil {
+			out.Kind = "empty"
+			return
+		}
+		out.Kind, out.Num = top.VerifKind()
+	})
+	if p {
+		out.Panic = msg
+	}
+	return out
+}
+
+func coqObs(o outcome) (string, bool) {
+	if o.Panic != "" || o.Fault == "ErrUnexpected" {
+		return "", false
+	}
+	if o.Fault != "" {
+		return "Err " + o.Fault, true
+	}
+	switch o.Kind {
+	case "int":
+		return fmt.Sprintf("Top (IInt %s) %d%%nat", zs(o.Num), o.Depth), true
+	case "bigint":
+		return fmt.Sprintf("Top (IBigInt %s) %d%%nat", zs(o.Num), o.Depth), true
+	case "bool":
+		return fmt.Sprintf("Top (IBool %s) %d%%nat", hx.CoqBool(o.Num.Sign() != 0), o.Depth), true
+	}
+	return "", false
+}
+
+func coqCell(o outcome) (string, bool) {
+	if o.Panic != "" || o.Fault == "ErrUnexpected" {
+		return "", false
+	}
+	if o.Fault != "" {
+		switch o.Fault {
+		case "ErrOverMaxBigIntegerSize":
+			return "EO", true
+		case "ErrShiftByNeg":
+			return "ES", true
+		case "ErrDivModByZero":
+			return "EZ", true
+		}
+		return "RE " + o.Fault, true
+	}
+	if o.Depth != 1 {
+		return "", false
+	}
+	switch o.Kind {
+	case "int":
+		return "RI " + zs(o.Num), true
+	case "bigint":
+		return "RB " + zs(o.Num), true
+	case "bool":
+		if o.Num.Sign() != 0 {
+			return "RT", true
+		}
+		return "RF", true
+	}
+	return "", false
+}
+
+// ---------- reference semantics (math/big), the oracle ----------
+
+type expect struct {
+	Fault  bool
+	IsBool bool
+	B      bool
+	V      *big.Int
+}
+
+func (e expect) String() string {
+	if e.Fault {
+		return "fault"
+	}
+	if e.IsBool {
+		return fmt.Sprint(e.B)
+	}
+	return e.V.String()
+}
+
+var two64 = pow2(64)
+
+func retInt(v *big.Int) expect {
+	if !inBound(v) {
+		return expect{Fault: true}
+	}
+	return expect{V: v}
+}
+
+// reference computes what the property demands for operands given by value (left..right order as
+// pushed: args[0] deepest). ok[i] tells whether the i-th operand is an integer-like item at all.
+func reference(op opInfo, args []*big.Int, isInt []bool) expect {
+	if len(args) < op.Arity {
+		return expect{Fault: true}
+	}
+	for _, k := range isInt {
+		if !k {
+			return expect{Fault: true}
+		}
+	}
+	if op.Kind != "cmp" {
+		for _, a := range args {
+			if !inBound(a) {
+				return expect{Fault: true}
+			}
+		}
+	}
+	z := new(big.Int)
+	switch op.Kind {
+	case "un":
+		x := args[0]
+		switch op.Name {
+		case "INVERT":
+			return retInt(z.Not(x))
+		case "INC":
+			return retInt(z.Add(x, big.NewInt(1)))
+		case "DEC":
+			return retInt(z.Sub(x, big.NewInt(1)))
+		case "SIGN":
+			return retInt(big.NewInt(int64(x.Sign())))
+		case "NEGATE":
+			return retInt(z.Neg(x))
+		case "ABS":
+			return retInt(z.Abs(x))
+		}
+	case "nz":
+		return expect{IsBool: true, B: args[0].Sign() != 0}
+	case "within":
+		x, lo, hi := args[0], args[1], args[2]
+		return expect{IsBool: true, B: lo.Cmp(x) <= 0 && x.Cmp(hi) < 0}
+	case "cmp":
+		cmp := args[0].Cmp(args[1])
+		var b bool
+		switch op.Name {
+		case "NUMEQUAL":
+			b = cmp == 0
+		case "NUMNOTEQUAL":
+			b = cmp != 0
+		case "LT":
+			b = cmp < 0
+		case "GT":
+			b = cmp > 0
+		case "LTE":
+			b = cmp <= 0
+		case "GTE":
+			b = cmp >= 0
+		}
+		return expect{IsBool: true, B: b}
+	case "bin":
+		x, y := args[0], args[1]
+		switch op.Name {
+		case "ADD":
+			return retInt(z.Add(x, y))
+		case "SUB":
+			return retInt(z.Sub(x, y))
+		case "MUL":
+			return retInt(z.Mul(x, y))
+		case "DIV":
+			if y.Sign() == 0 {
+				return expect{Fault: true}
+			}
+			return retInt(truncDiv(x, y))
+		case "MOD":
+			if y.Sign() == 0 {
+				return expect{Fault: true}
+			}
+			q := truncDiv(x, y)
+			return retInt(z.Sub(x, new(big.Int).Mul(q, y)))
+		case "MAX":
+			if x.Cmp(y) >= 0 {
+				return retInt(x)
+			}
+			return retInt(y)
+		case "MIN":
+			if x.Cmp(y) <= 0 {
+				return retInt(x)
+			}
+			return retInt(y)
+		case "AND":
+			return retInt(z.And(x, y))
+		case "OR":
+			return retInt(z.Or(x, y))
+		case "XOR":
+			return retInt(z.Xor(x, y))
+		case "SHL":
+			// bounds of the VM on the count: a uint64, and at most 8*MAX_INT_SIZE
+			if y.Sign() < 0 || y.Cmp(two64) >= 0 || y.Cmp(big.NewInt(8*constants.MAX_INT_SIZE)) > 0 {
+				return expect{Fault: true}
+			}
+			return retInt(z.Mul(x, pow2(uint(y.Int64()))))
+		case "SHR":
+			if y.Sign() < 0 || y.Cmp(two64) >= 0 {
+				return expect{Fault: true}
+			}
+			// floor(x / 2^y); for y > 256 and |x| < 2^256 that is 0 or -1
+			if y.Cmp(big.NewInt(4096)) > 0 {
+				if x.Sign() < 0 {
+					return retInt(big.NewInt(-1))
+				}
+				return retInt(big.NewInt(0))
+			}
+			return retInt(floorDiv(x, pow2(uint(y.Int64()))))
+		}
+	}
+	panic("reference: " + op.Name)
+}
+
+// truncDiv: quotient truncated toward zero, computed from magnitudes (independent of big.Int.Quo).
+func truncDiv(x, y *big.Int) *big.Int {
+	q := new(big.Int).Div(new(big.Int).Abs(x), new(big.Int).Abs(y)) // Euclidean on non-negatives = floor
+	if (x.Sign() < 0) != (y.Sign() < 0) {
+		q.Neg(q)
+	}
+	return q
+}
+
+func floorDiv(x, p *big.Int) *big.Int { // p > 0: Euclidean division = floor
+	return new(big.Int).Div(x, p)
+}
+
+var maxMag = add(pow2(8*constants.MAX_INT_SIZE), -1)
+var minInt64 = neg(pow2(63))
+
+// failClass names the class of a failing input.
+func failClass(op opInfo, args []*big.Int, what string) string {
+	lo := strings.ToLower(op.Name)
+	if op.Name == "INVERT" && len(args) == 1 && args[0].Cmp(maxMag) == 0 && what == "missing-fault" {
+		return "invert:result-exceeds-size-bound"
+	}
+	if (op.Name == "DIV" || op.Name == "MOD") && len(args) == 2 && args[0].Cmp(minInt64) == 0 && args[1].Cmp(big.NewInt(-1)) == 0 {
+		return lo + ":minint64-by-minus1"
+	}
+	return lo + ":" + what
+}
+
+type execInput struct {
+	Kind   string `json:"kind"` // exec | script | row | meth | methrow | ovrow
+	Op     string `json:"op,omitempty"`
+	Stack  []item `json:"stack,omitempty"` // top first
+	A      *item  `json:"a,omitempty"`
+	M      string `json:"m,omitempty"`
+	MA     *mval  `json:"ma,omitempty"`
+	MB     *mval  `json:"mb,omitempty"`
+	F      string `json:"f,omitempty"`
+	OA     string `json:"oa,omitempty"`
+	Script string `json:"script,omitempty"`
+}
+
+// check compares an outcome with the reference; reports a failing input. Returns true when fine.
+func check(c *hx.Ctx, op opInfo, in execInput, args []*big.Int, isInt []bool, got outcome) bool {
+	want := reference(op, args, isInt)
+	bad := func(what, clause string) bool {
+		c.Fail(failClass(op, args, what), clause, in, got.String(), want.String())
+		return false
+	}
+	if got.Panic != "" {
+		return bad("panic", "executing an integer opcode panicked")
+	}
+	if got.Fault == "ErrUnexpected" {
+		return bad("unexpected-error", "fault of a kind no integer opcode should produce, or error without FAULT state")
+	}
+	if want.Fault {
+		if got.Fault == "" {
+			return bad("missing-fault", "operands or result outside the VM's integer size bound (or invalid operands) must fault")
+		}
+		return true
+	}
+	if got.Fault != "" {
+		return bad("spurious-fault", "operands and exact result fit the size bound: the opcode must return the exact result")
+	}
+	if want.IsBool {
+		if got.Kind != "bool" || (got.Num.Sign() != 0) != want.B {
+			return bad("wrong-result", "comparison result is not the exact one")
+		}
+		return true
+	}
+	if (got.Kind != "int" && got.Kind != "bigint") || got.Num.Cmp(want.V) != 0 {
+		return bad("wrong-result", "result is not the mathematically exact one")
+	}
+	return true
+}
+
+// ---------- exec cases ----------
+
+func nontrivialKey(op opInfo, st []item, got outcome) (string, bool) {
+	lim := pow2(62)
+	edge := got.Fault != ""
+	for _, it := range st {
+		if it.Rep == "other" || new(big.Int).Abs(it.val()).Cmp(lim) >= 0 {
+			edge = true
+		}
+	}
+	if got.Num != nil && new(big.Int).Abs(got.Num).Cmp(lim) >= 0 {
+		edge = true
+	}
+	return fmt.Sprint(op.Name, st), edge
+}
+
+// doExec runs one opcode on a stack (top first), applies the oracle, emits the correspondence case.
+func doExec(c *hx.Ctx, op opInfo, st []item, tag string) outcome {
+	var vals []types.VmValue
+	var terms []string
+	for _, it := range st {
+		v, t := it.build(c)
+		vals = append(vals, v)
+		terms = append(terms, t)
+	}
+	got := execOp(c, op, vals)
+	in := execInput{Kind: "exec", Op: op.Name, Stack: st}
+	// operands by value, deepest first
+	var args []*big.Int
+	var isInt []bool
+	n := op.Arity
+	if n > len(st) {
+		n = len(st)
+	}
+	for i := n - 1; i >= 0; i-- {
+		args = append(args, st[i].val())
+		isInt = append(isInt, st[i].Rep != "other")
+	}
+	if len(st) < op.Arity {
+		args = nil
+		// an invalid top operand still decides the kind of fault; the reference only says "fault"
+	}
+	if len(st) < op.Arity {
+		want := expect{Fault: true}
+		if got.Fault == "" || got.Panic != "" {
+			c.Fail(failClass(op, nil, "missing-fault"), "too few operands must fault", in, got.String(), want.String())
+		}
+	} else {
+		check(c, op, in, args, isInt, got)
+		if got.Fault == "" && got.Panic == "" && got.Depth != len(st)-op.Arity+1 {
+			c.Fail(strings.ToLower(op.Name)+":stack-depth", "an opcode must replace its operands by one result", in, got.Depth, len(st)-op.Arity+1)
+		}
+	}
+	c.Count("exec:" + tag)
+	c.Count("op:" + op.Name)
+	if got.Fault != "" {
+		c.Count("outcome:" + got.Fault)
+	} else {
+		c.Count("outcome:" + got.Kind)
+	}
+	if key, edge := nontrivialKey(op, st, got); edge {
+		c.Nontrivial(key)
+	}
+	if obs, ok := coqObs(got); ok {
+		c.Case(fmt.Sprintf("CExec %s %s (%s)", op.Name, hx.CoqList(parens(terms)), obs), in)
+	}
+	return got
+}
+
+func parens(ts []string) []string {
+	out := make([]string, len(ts))
+	for i, t := range ts {
+		out[i] = t
+	}
+	return out
+}
+
+// reprCheck: same operands by value in every storage form must give the same outcome.
+func reprCheck(c *hx.Ctx, op opInfo, vals []*big.Int /* top first */, base outcome, baseSt []item) {
+	n := len(vals)
+	choice := make([][]string, n)
+	total := 1
+	for i, v := range vals {
+		choice[i] = reps(v)
+		if v.Sign() == 0 || v.Cmp(big.NewInt(1)) == 0 {
+			choice[i] = append(choice[i], "bool")
+		}
+		total *= len(choice[i])
+	}
+	for k := 0; k < total; k++ {
+		st := make([]item, n)
+		vv := make([]types.VmValue, n)
+		kk := k
+		same := true
+		for i := 0; i < n; i++ {
+			r := choice[i][kk%len(choice[i])]
+			kk /= len(choice[i])
+			st[i] = item{Z: vals[i].String(), Rep: r}
+			if r == "bytes" && c.Rng.Intn(4) == 0 {
+				st[i].Pad = 1 + c.Rng.Intn(2)
+			}
+			if st[i] != baseSt[i] {
+				same = false
+			}
+			vv[i], _ = st[i].build(c)
+		}
+		if same {
+			continue
+		}
+		got := execOp(c, op, vv)
+		c.Count("repr-variants")
+		if !got.sameResult(base) {
+			// NUMEQUAL & co. on bool vs int: same integer, must agree as well
+			var args []*big.Int
+			for i := n - 1; i >= 0; i-- {
+				args = append(args, vals[i])
+			}
+			c.Fail(failClass(op, args, "repr-dependent"), "the result must not depend on how equal integers are stored",
+				execInput{Kind: "exec", Op: op.Name, Stack: st}, got.String(), base.String()+" for "+fmt.Sprint(baseSt))
+		}
+	}
+}
+
+// ---------- sweeps ----------
+
+func sweepItems(bs []*big.Int) []item {
+	var xs []item
+	for i, v := range bs {
+		xs = append(xs, natural(v, i))
+	}
+	return xs
+}
+
+func doRow(c *hx.Ctx, op opInfo, a item, xs []item, xsName string, withRepr bool) {
+	av, at := a.build(c)
+	var cells []string
+	okAll := true
+	for _, b := range xs {
+		bv, _ := b.build(c)
+		got := execOp(c, op, []types.VmValue{bv, av})
+		st := []item{b, a}
+		in := execInput{Kind: "exec", Op: op.Name, Stack: st}
+		check(c, op, in, []*big.Int{a.val(), b.val()}, []bool{true, true}, got)
+		if withRepr {
+			reprCheck(c, op, []*big.Int{b.val(), a.val()}, got, st)
+		}
+		c.Count("op:" + op.Name)
+		if got.Fault != "" {
+			c.Count("outcome:" + got.Fault)
+		} else {
+			c.Count("outcome:" + got.Kind)
+		}
+		if key, edge := nontrivialKey(op, st, got); edge {
+			c.Nontrivial(key)
+		}
+		cell, ok := coqCell(got)
+		if !ok {
+			okAll = false
+			cell = "RE ErrBadType"
+		}
+		cells = append(cells, cell)
+	}
+	c.Count("exec:sweep-row")
+	if okAll {
+		c.Case(fmt.Sprintf("CRow %s (%s) %s %s", op.Name, at, xsName, hx.CoqList(cells)),
+			execInput{Kind: "row", Op: op.Name, A: &a})
+	}
+}
+
+// ---------- IntValue methods with explicit representations ----------
+
+type mval struct {
+	Z   string `json:"z"`
+	Big bool   `json:"big"`
+}
+
+func (m mval) build() (types.IntValue, string) {
+	v := bi(m.Z)
+	if m.Big {
+		return types.VerifIntValRaw(true, 0, v), "Big " + zs(v)
+	}
+	return types.VerifIntValRaw(false, v.Int64(), nil), "Small " + zs(v)
+}
+
+var binMeths = []string{"Add", "Sub", "Mul", "Div", "Mod", "Max", "Min", "And", "Or", "Xor", "Lsh", "Rsh", "Cmp"}
+var unMeths = []string{"Not", "Abs", "Sign", "IsZero"}
+
+type mout struct {
+	Term  string // Coq mres
+	Fault bool
+	V     *big.Int
+	Panic string
+}
+
+func ivTerm(v types.IntValue) (string, *big.Int) {
+	isbig, i, b := v.VerifParts()
+	if isbig {
+		return "MB " + zs(b), b
+	}
+	return "MS " + zs(big.NewInt(i)), big.NewInt(i)
+}
+
+func runMeth(c *hx.Ctx, m string, a, b types.IntValue) mout {
+	c.Eval()
+	var out mout
+	p, msg := hx.Recover(func() {
+		var r types.IntValue
+		var err error
+		switch m {
+		case "Add":
+			r, err = a.Add(b)
+		case "Sub":
+			r, err = a.Sub(b)
+		case "Mul":
+			r, err = a.Mul(b)
+		case "Div":
+			r, err = a.Div(b)
+		case "Mod":
+			r, err = a.Mod(b)
+		case "Max":
+			r, err = a.Max(b)
+		case "Min":
+			r, err = a.Min(b)
+		case "And":
+			r, err = a.And(b)
+		case "Or":
+			r, err = a.Or(b)
+		case "Xor":
+			r, err = a.Xor(b)
+		case "Lsh":
+			r, err = a.Lsh(b)
+		case "Rsh":
+			r, err = a.Rsh(b)
+		case "Cmp":
+			v := big.NewInt(int64(a.Cmp(b)))
+			out.Term, out.V = "MZ "+zs(v), v
+			return
+		case "Not":
+			r = a.Not()
+		case "Abs":
+			r = a.Abs()
+		case "Sign":
+			v := big.NewInt(int64(a.Sign()))
+			out.Term, out.V = "MZ "+zs(v), v
+			return
+		case "IsZero":
+			v := big.NewInt(0)
+			if a.IsZero() {
+				v = big.NewInt(1)
+			}
+			out.Term, out.V = "MZ "+zs(v), v
+			return
+		default:
+			panic("bad method " + m)
+		}
+		if err != nil {
+			out.Fault = true
+			switch faultName(err) {
+			case "ErrOverMaxBigIntegerSize":
+				out.Term = "MO"
+			case "ErrShiftByNeg":
+				out.Term = "MSh"
+			case "ErrDivModByZero":
+				out.Term = "MDz"
+			default:
+				out.Term = "ME " + faultName(err)
+			}
+			return
+		}
+		out.Term, out.V = ivTerm(r)
+	})
+	if p {
+		out.Panic = msg
+	}
+	return out
+}
+
+var methOp = map[string]string{"Add": "ADD", "Sub": "SUB", "Mul": "MUL", "Div": "DIV", "Mod": "MOD", "Max": "MAX", "Min": "MIN",
+	"And": "AND", "Or": "OR", "Xor": "XOR", "Lsh": "SHL", "Rsh": "SHR", "Not": "INVERT", "Abs": "ABS", "Sign": "SIGN"}
+
+// checkMeth: oracle for a method result (operands within the bound).
+func checkMeth(c *hx.Ctx, m string, a, b mval, got mout) {
+	in := execInput{Kind: "meth", M: m, MA: &a, MB: &b}
+	if got.Panic != "" {
+		c.Fail("method:"+strings.ToLower(m)+":panic", "an IntValue method panicked", in, got.Panic, nil)
+		return
+	}
+	x, y := bi(a.Z), bi(b.Z)
+	if !inBound(x) || !inBound(y) {
+		return // methods rely on the caller's size check of operands
+	}
+	var want expect
+	switch m {
+	case "Cmp":
+		want = expect{V: big.NewInt(int64(x.Cmp(y)))}
+	case "IsZero":
+		want = expect{V: big.NewInt(0)}
+		if x.Sign() == 0 {
+			want.V = big.NewInt(1)
+		}
+	case "Not":
+		want = expect{V: new(big.Int).Not(x)} // Not applies no size rule (see the INVERT finding at executor level)
+	case "Abs", "Sign":
+		want = reference(opByName(methOp[m]), []*big.Int{x}, []bool{true})
+	default:
+		want = reference(opByName(methOp[m]), []*big.Int{x, y}, []bool{true, true})
+	}
+	lo := "method:" + strings.ToLower(m)
+	if (m == "Div" || m == "Mod") && x.Cmp(minInt64) == 0 && y.Cmp(big.NewInt(-1)) == 0 {
+		lo = strings.ToLower(m) + ":minint64-by-minus1"
+		if want.Fault != got.Fault || (!want.Fault && got.V.Cmp(want.V) != 0) {
+			c.Fail(lo, "MinInt64 / -1 and MinInt64 % -1 must give the exact results 2^63 and 0", in, got.Term, want.String())
+		}
+		return
+	}
+	if want.Fault != got.Fault {
+		c.Fail(lo+":fault-mismatch", "a method must fault exactly when the exact result is outside the size bound (or the operation is undefined)", in, got.Term, want.String())
+		return
+	}
+	if !want.Fault && got.V.Cmp(want.V) != 0 {
+		c.Fail(lo+":wrong-result", "result is not the mathematically exact one", in, got.Term, want.String())
+	}
+}
+
+// methSet: int64-range values in both encodings (Small, and Big holding the same integer), plus
+// values only a big.Int can hold.
+func methSet() []mval {
+	var out []mval
+	small := []*big.Int{big.NewInt(0), big.NewInt(1), big.NewInt(-1), big.NewInt(2), big.NewInt(63), big.NewInt(64),
+		big.NewInt(257), pow2(32), big.NewInt(3037000500), big.NewInt(-3037000500), pow2(62),
+		add(pow2(63), -1), neg(pow2(63)), add(neg(pow2(63)), 1)}
+	for _, v := range small {
+		out = append(out, mval{Z: v.String(), Big: false}, mval{Z: v.String(), Big: true})
+	}
+	for _, v := range []*big.Int{pow2(63), add(neg(pow2(63)), -1), pow2(255), add(pow2(256), -1)} {
+		out = append(out, mval{Z: v.String(), Big: true})
+	}
+	return out
+}
+
+func doMethRow(c *hx.Ctx, m string, a mval, xs []mval, xsName string, seen map[string]string) {
+	av, at := a.build()
+	var cells []string
+	ok := true
+	for _, b := range xs {
+		bv, _ := b.build()
+		got := runMeth(c, m, av, bv)
+		checkMeth(c, m, a, b, got)
+		c.Count("meth:" + m)
+		if got.Panic != "" {
+			ok = false
+			continue
+		}
+		// representation irrelevance: same values, other storage => same value / same fault
+		key := m + "|" + a.Z + "|" + b.Z
+		sig := "fault"
+		if !got.Fault {
+			sig = got.V.String()
+		}
+		if prev, dup := seen[key]; dup && prev != sig {
+			c.Fail("method:"+strings.ToLower(m)+":repr-dependent", "the result must not depend on how equal integers are stored",
+				execInput{Kind: "meth", M: m, MA: &a, MB: &b}, sig, prev)
+		}
+		seen[key] = sig
+		c.Nontrivial("m" + key + fmt.Sprint(a.Big, b.Big))
+		cells = append(cells, got.Term)
+	}
+	if ok {
+		c.Case(fmt.Sprintf("CMethRow Me%s (%s) %s %s", m, at, xsName, hx.CoqList(cells)), execInput{Kind: "methrow", M: m, MA: &a})
+	}
+}
+
+func doMeth(c *hx.Ctx, m string, a, b mval) {
+	av, at := a.build()
+	bv, bt := b.build()
+	got := runMeth(c, m, av, bv)
+	checkMeth(c, m, a, b, got)
+	c.Count("meth:" + m)
+	if got.Panic == "" {
+		c.Case(fmt.Sprintf("CMeth Me%s (%s) (%s) (%s)", m, at, bt, got.Term), execInput{Kind: "meth", M: m, MA: &a, MB: &b})
+	}
+}
+
+// ---------- overflow package ----------
+
+func ovSet() []int64 {
+	const mx = int64(^uint64(0) >> 1)
+	const mn = -mx - 1
+	return []int64{0, 1, -1, 2, -2, 3, -3, 1 << 31, -(1 << 31), 1 << 32, 3037000499, 3037000500, -3037000500, 1 << 62, -(1 << 62),
+		mx, mx - 1, mn, mn + 1, mx / 2, mn / 2, (mx / 3) + 1}
+}
+
+func doOvRow(c *hx.Ctx, f string, a int64, xs []int64, xsName string) {
+	var cells []string
+	for _, b := range xs {
+		c.Eval()
+		var r int64
+		var ok bool
+		var exact *big.Int
+		A, B := big.NewInt(a), big.NewInt(b)
+		switch f {
+		case "Add":
+			r, ok = overflow.Add64(a, b)
+			exact = new(big.Int).Add(A, B)
+		case "Sub":
+			r, ok = overflow.Sub64(a, b)
+			exact = new(big.Int).Sub(A, B)
+		case "Mul":
+			r, ok = overflow.Mul64(a, b)
+			exact = new(big.Int).Mul(A, B)
+		case "Div":
+			r, ok = overflow.Div64(a, b)
+			if b != 0 {
+				exact = truncDiv(A, B)
+			}
+		}
+		if ok && (exact == nil || exact.Cmp(big.NewInt(r)) != 0) {
+			c.Fail("overflow:"+strings.ToLower(f)+"64-unsound", "a reported success must carry the exact result",
+				execInput{Kind: "ovrow", F: f, OA: fmt.Sprint(a)}, fmt.Sprint(r, ok, " b=", b), fmt.Sprint(exact))
+		}
+		c.Count("overflow:" + f)
+		cells = append(cells, fmt.Sprintf("(%s, %s)", zs(big.NewInt(r)), hx.CoqBool(ok)))
+	}
+	c.Case(fmt.Sprintf("COvRow Ov%s %s %s %s", f, zs(big.NewInt(a)), xsName, hx.CoqList(cells)), execInput{Kind: "ovrow", F: f, OA: fmt.Sprint(a)})
+}
+
+// ---------- random generation ----------
+
+func genValue(c *hx.Ctx, bs []*big.Int) *big.Int {
+	switch c.Intn(8) {
+	case 0:
+		return bs[c.Intn(len(bs))]
+	case 1, 2:
+		return add(bs[c.Intn(len(bs))], int64(c.Intn(7)-3))
+	case 3:
+		return big.NewInt(int64(c.Intn(41) - 20))
+	case 4:
+		return big.NewInt(int64(c.Intn(300)))
+	case 5:
+		k := []uint{8, 31, 32, 62, 63, 64, 65, 127, 128, 129, 254, 255, 256, 257, 300}[c.Intn(15)]
+		v := add(pow2(k), int64(c.Intn(5)-2))
+		if c.Intn(2) == 0 {
+			v.Neg(v)
+		}
+		return v
+	default:
+		nb := 1 + c.Intn(40)
+		if c.Intn(3) == 0 {
+			nb = []int{8, 9, 31, 32, 33}[c.Intn(5)]
+		}
+		v := new(big.Int).SetBytes(c.Bytes(nb))
+		if c.Intn(2) == 0 {
+			v.Neg(v)
+		}
+		return v
+	}
+}
+
+func genItem(c *hx.Ctx, bs []*big.Int) item {
+	if c.Intn(25) == 0 {
+		return item{Z: "0", Rep: "other"}
+	}
+	v := genValue(c, bs)
+	rs := reps(v)
+	if v.Sign() == 0 || v.Cmp(big.NewInt(1)) == 0 {
+		rs = append(rs, "bool")
+	}
+	it := item{Z: v.String(), Rep: rs[c.Intn(len(rs))]}
+	if it.Rep == "bytes" && c.Intn(5) == 0 {
+		it.Pad = 1 + c.Intn(3)
+	}
+	return it
+}
+
+func pushCode(v *big.Int) ([]byte, bool) {
+	if v.IsInt64() {
+		i := v.Int64()
+		if i == -1 {
+			return []byte{byte(neovm.PUSHM1)}, true
+		}
+		if i == 0 {
+			return []byte{byte(neovm.PUSH0)}, true
+		}
+		if i >= 1 && i <= 16 {
+			return []byte{byte(neovm.PUSH1) + byte(i-1)}, true
+		}
+	}
+	bs := common.BigIntToNeoBytes(v)
+	if len(bs) == 0 || len(bs) > 75 {
+		return nil, false
+	}
+	return append([]byte{byte(len(bs))}, bs...), true
+}
+
+// doScript: operands pushed by PUSHBYTESn / PUSHn, then the opcode, through Executor.Execute.
+func doScript(c *hx.Ctx, op opInfo, vals []*big.Int /* deepest first */) {
+	var code []byte
+	var st []item // top first, as the model sees them
+	for _, v := range vals {
+		pc, ok := pushCode(v)
+		if !ok {
+			return
+		}
+		code = append(code, pc...)
+		it := item{Z: v.String(), Rep: "bytes"}
+		if len(pc) == 1 { // PUSHM1/PUSH0..PUSH16 push an int64
+			it.Rep = "int"
+		}
+		st = append([]item{it}, st...)
+	}
+	code = append(code, byte(op.Code))
+	got := execScript(c, op, code)
+	in := execInput{Kind: "script", Op: op.Name, Stack: st, Script: hx.Hex(code)}
+	isInt := make([]bool, len(vals))
+	for i := range isInt {
+		isInt[i] = true
+	}
+	check(c, op, in, vals, isInt, got)
+	c.Count("exec:script")
+	c.Count("op:" + op.Name)
+	var terms []string
+	for _, it := range st {
+		_, t := it.build(c)
+		terms = append(terms, t)
+	}
+	if key, edge := nontrivialKey(op, st, got); edge {
+		c.Nontrivial("s" + key)
+	}
+	if obs, ok := coqObs(got); ok {
+		c.Case(fmt.Sprintf("CExec %s %s (%s)", op.Name, hx.CoqList(terms), obs), in)
+	}
+}
+
+// ---------- replay ----------
+
+func replay(c *hx.Ctx, in execInput, bs []*big.Int) {
+	switch in.Kind {
+	case "exec":
+		doExec(c, opByName(in.Op), in.Stack, "replay")
+	case "script":
+		op := opByName(in.Op)
+		var vals []*big.Int
+		for i := len(in.Stack) - 1; i >= 0; i-- {
+			vals = append(vals, in.Stack[i].val())
+		}
+		doScript(c, op, vals)
+	case "row":
+		doRow(c, opByName(in.Op), *in.A, sweepItems(bs), "XS", true)
+	case "meth":
+		b := mval{Z: "0"}
+		if in.MB != nil {
+			b = *in.MB
+		}
+		doMeth(c, in.M, *in.MA, b)
+	case "methrow":
+		doMethRow(c, in.M, *in.MA, methSet(), "XSM", map[string]string{})
+	case "ovrow":
+		var a int64
+		fmt.Sscan(in.OA, &a)
+		doOvRow(c, in.F, a, ovSet(), "XSZ")
+	default:
+		panic("unknown replay kind " + in.Kind)
+	}
+}
+
+// ---------- driver ----------
+
 func Run(c *hx.Ctx) {
 	c.CoqModule("Corr.C13")
+	bs := boundarySet()
+	xs := sweepItems(bs)
+	ms := methSet()
+	os := ovSet()
+
+	// shared operand lists of the sweeps, defined once in cases.v
+	var xt, mt, ot []string
+	for _, it := range xs {
+		_, t := it.build(c)
+		xt = append(xt, t)
+	}
+	for _, m := range ms {
+		_, t := m.build()
+		mt = append(mt, t)
+	}
+	for _, o := range os {
+		ot = append(ot, zs(big.NewInt(o)))
+	}
+	c.CoqHeader("From Coq Require Import Uint63.")
+	c.CoqHeader("Open Scope Z_scope.")
+	c.CoqHeader("Definition XS : list item := " + hx.CoqList(xt) + ".")
+	c.CoqHeader("Definition XSM : list IntValue := " + hx.CoqList(mt) + ".")
+	c.CoqHeader("Definition XSZ : list Z := " + hx.CoqList(ot) + ".")
+
+	// 1. replay mode
+	var rin execInput
+	if c.ReplayInput(&rin) {
+		replay(c, rin, bs)
+		return
+	}
+
+	// 2. corpus (minimized past failures: the F5 witnesses, the INVERT witness)
+	for _, raw := range c.CorpusInputs() {
+		var in execInput
+		if err := json.Unmarshal(raw, &in); err != nil {
+			c.Note("corpus entry not understood: " + err.Error())
+			continue
+		}
+		c.Count("corpus")
+		replay(c, in, bs)
+	}
+
+	// 3. deterministic probes, independent of the corpus directory: the old F5 witnesses at both
+	// levels and in every storage form, and the INVERT witness.
+	mi := item{Z: minInt64.String(), Rep: "int"}
+	m1 := item{Z: "-1", Rep: "int"}
+	for _, opn := range []string{"DIV", "MOD"} {
+		got := doExec(c, opByName(opn), []item{m1, mi}, "probe")
+		reprCheck(c, opByName(opn), []*big.Int{big.NewInt(-1), minInt64}, got, []item{m1, mi})
+		doScript(c, opByName(opn), []*big.Int{minInt64, big.NewInt(-1)})
+	}
+	for _, m := range []string{"Div", "Mod"} {
+		for _, ab := range []bool{false, true} {
+			for _, bb := range []bool{false, true} {
+				doMeth(c, m, mval{Z: minInt64.String(), Big: ab}, mval{Z: "-1", Big: bb})
+			}
+		}
+	}
+	doExec(c, opByName("INVERT"), []item{{Z: maxMag.String(), Rep: "bytes"}}, "probe")
+	doExec(c, opByName("INVERT"), []item{{Z: maxMag.String(), Rep: "bigint"}}, "probe")
+	doScript(c, opByName("INVERT"), []*big.Int{maxMag})
+
+	// 4. exhaustive sweep of the boundary set squared, every two-operand opcode, through ExecuteOp
+	for _, op := range ops {
+		if op.Arity != 2 {
+			continue
+		}
+		for _, a := range xs {
+			doRow(c, op, a, xs, "XS", true)
+		}
+	}
+	// one-operand opcodes on the whole set in every storage form
+	for _, op := range ops {
+		if op.Arity != 1 {
+			continue
+		}
+		for _, v := range bs {
+			rs := reps(v)
+			if v.Sign() == 0 || v.Cmp(big.NewInt(1)) == 0 {
+				rs = append(rs, "bool")
+			}
+			var base outcome
+			var baseSt []item
+			for i, r := range rs {
+				st := []item{{Z: v.String(), Rep: r}}
+				got := doExec(c, op, st, "unary-sweep")
+				if i == 0 {
+					base, baseSt = got, st
+				} else if !got.sameResult(base) {
+					c.Fail(failClass(op, []*big.Int{v}, "repr-dependent"), "the result must not depend on how equal integers are stored",
+						execInput{Kind: "exec", Op: op.Name, Stack: st}, got.String(), base.String()+" for "+fmt.Sprint(baseSt))
+				}
+			}
+		}
+	}
+	// WITHIN on a small set cubed
+	ws := []*big.Int{big.NewInt(0), big.NewInt(-1), big.NewInt(1), add(pow2(63), -1), pow2(63), neg(pow2(63)), add(neg(pow2(63)), -1), maxMag, pow2(256)}
+	for _, x := range ws {
+		for i, lo := range ws {
+			for j, hi := range ws {
+				st := []item{natural(hi, j), natural(lo, i), natural(x, i+j)}
+				doExec(c, opByName("WITHIN"), st, "within-sweep")
+			}
+		}
+	}
+
+	// 5. IntValue methods, both representations of int64-range values, and the overflow package
+	seen := map[string]string{}
+	for _, m := range binMeths {
+		for _, a := range ms {
+			doMethRow(c, m, a, ms, "XSM", seen)
+		}
+	}
+	for _, m := range unMeths {
+		for _, a := range ms {
+			doMeth(c, m, a, mval{Z: "0"})
+		}
+	}
+	for _, f := range []string{"Add", "Sub", "Mul", "Div"} {
+		for _, a := range os {
+			doOvRow(c, f, a, os, "XSZ")
+		}
+	}
+
+	// 6. random, boundary-biased stacks: any opcode, any storage form, underflow, non-integers,
+	// extra items below the operands; a tenth as scripts through Executor.Execute.
+	n := c.N(1500, 12000)
+	for i := 0; i < n; i++ {
+		op := ops[c.Intn(len(ops))]
+		if c.Intn(10) == 0 {
+			var vals []*big.Int
+			for k := 0; k < op.Arity; k++ {
+				vals = append(vals, genValue(c, bs))
+			}
+			doScript(c, op, vals)
+			continue
+		}
+		depth := op.Arity
+		switch c.Intn(12) {
+		case 0:
+			depth = c.Intn(op.Arity) // underflow
+		case 1, 2, 3:
+			depth += 1 + c.Intn(3)
+		}
+		var st []item
+		for k := 0; k < depth; k++ {
+			st = append(st, genItem(c, bs))
+		}
+		if op.Name == "SHL" || op.Name == "SHR" {
+			if len(st) > 0 && c.Intn(3) != 0 {
+				st[0] = item{Z: fmt.Sprint(c.Intn(300)), Rep: "int"}
+			}
+		}
+		got := doExec(c, op, st, "random")
+		if i < 6 {
+			c.Sample(map[string]interface{}{"op": op.Name, "stack_top_first": st, "outcome": got.String()})
+		}
+		// representation irrelevance on the operands of this case
+		if len(st) >= op.Arity && c.Intn(3) == 0 {
+			okInts := true
+			var vals []*big.Int
+			for k := 0; k < op.Arity; k++ {
+				if st[k].Rep == "other" {
+					okInts = false
+				}
+				vals = append(vals, st[k].val())
+			}
+			if okInts {
+				stOps := st[:op.Arity]
+				base := got
+				if len(st) > op.Arity {
+					var vv []types.VmValue
+					for _, it := range stOps {
+						v, _ := it.build(c)
+						vv = append(vv, v)
+					}
+					base = execOp(c, op, vv)
+				}
+				reprCheck(c, op, vals, base, stOps)
+			}
+		}
+	}
 }
